@@ -284,6 +284,72 @@ func c04Unit(scheme string, n int) core.Unit {
 	}}
 }
 
+// c04CrossUnit: the SAME constraint text under different schemes, alternating, in one process.
+// Version pairs whose order (or validity) differs between the schemes' ecosystems; the expected
+// value is recomputed per scheme from that scheme's own Compare.
+func c04CrossUnit() core.Unit {
+	return core.Unit{Name: "C04/cross-scheme", Weight: 4, Run: func(r *core.Result) {
+		pool := []string{"1.0.0", "1.0.0-1", "1.0.0-alpha", "1.0.0-sp", "1.0.0.1", "1.0.0-rc1", "1.0a", "1.0.post1", "1.0", "1.0.1", "0.9", "2.0.0", "1.0.0-10", "1.0.0-2", "1.0~rc1", "1.0.0+b", "v1.0.0", "1.0_p1", "1.0-r1", "1.0.0-SNAPSHOT", "1.0.0.rc1"}
+		shapes := [][]string{{">=", "<="}, {"<", ">"}, {">", "<"}, {"<=", ">="}, {"=", "!="}, {">=", "!="}}
+		order := append([]string{}, eco.Schemes...)
+		for i := len(eco.Schemes) - 1; i >= 0; i-- {
+			order = append(order, eco.Schemes[i]) // forward, then backward: every scheme follows every other
+		}
+		for _, a := range pool {
+			for _, b := range pool {
+				if a == b {
+					continue
+				}
+				for _, ops0 := range shapes {
+					text := ops0[0] + a + "|" + ops0[1] + b
+					r.Add("states", 1)
+					for _, scheme := range order {
+						e := eco.ByName(eco.SchemeEco[scheme])
+						va, e1 := eco.SafeParse(e, a)
+						vb, e2 := eco.SafeParse(e, b)
+						if e1 != nil || e2 != nil {
+							continue
+						}
+						ops, vs := []string{ops0[0], ops0[1]}, []string{a, b}
+						if c, p := eco.SafeCompare(va, vb); p != nil || c == 0 {
+							continue
+						} else if c > 0 {
+							ops, vs = []string{ops0[1], ops0[0]}, []string{b, a}
+						}
+						if !ref.VersShapeValid(ops) {
+							continue
+						}
+						rs := "vers:" + scheme + "/" + text
+						for _, probe := range pool {
+							want, tag, ok := versExpect(scheme, e, ops, vs, probe)
+							if !ok {
+								continue
+							}
+							got, err := func() (g bool, e error) {
+								defer func() {
+									if x := recover(); x != nil {
+										e = fmt.Errorf("panic: %v", x)
+									}
+								}()
+								return vers.Contains(rs, probe)
+							}()
+							r.Add("evaluations", 1)
+							if want {
+								r.Add("nontrivial", 1)
+							}
+							if err != nil || got != want {
+								r.Violate(core.Violation{Property: "C04", Scope: scheme, Kind: "containment",
+									Inputs: []string{rs, probe}, Expected: fmt.Sprintf("%v (rule %s)", want, tag), Got: fmt.Sprintf("%v err=%v", got, err),
+									Note: "cross-scheme;shape=" + strings.Join(ops, " ") + ";rule=" + tag})
+							}
+						}
+					}
+				}
+			}
+		}
+	}}
+}
+
 func init() {
 	core.Register(&core.Prop{
 		ID:    "C04",
@@ -295,6 +361,7 @@ func init() {
 					us = append(us, c04Unit(s, n))
 				}
 			}
+			us = append(us, c04CrossUnit())
 			return us
 		},
 		Replay: func(v *core.Violation) (bool, string) {
@@ -307,6 +374,15 @@ func init() {
 				return false, "unparsable replay range"
 			}
 			e := eco.ByName(eco.SchemeEco[scheme])
+			if len(ops) == 2 { // the cross-scheme unit writes its two constraints in a fixed textual order
+				if x, e1 := eco.SafeParse(e, vs[0]); e1 == nil {
+					if y, e2 := eco.SafeParse(e, vs[1]); e2 == nil {
+						if c, p := eco.SafeCompare(x, y); p == nil && c > 0 {
+							ops, vs = []string{ops[1], ops[0]}, []string{vs[1], vs[0]}
+						}
+					}
+				}
+			}
 			want, tag, ok := versExpect(scheme, e, ops, vs, v.Inputs[1])
 			if !ok {
 				return false, "expectation not computable"
@@ -324,7 +400,7 @@ func init() {
 				"max_constraints":               c04MaxN(tier),
 			}
 		},
-		Rule:        "for each of the 11 schemes: every comparator sequence of length 1..n (quick 4, thorough 8) over {< <= > >= = !=} whose bounds alternate as the VERS spec requires, instantiated with increasing versions from 2-3 pools per scheme (plain releases; pre-releases and scheme-specific spellings), evaluated on every pool member up to just above the last bound and on every Compare-equal alternative spelling (.0 suffix, v / 0: / 0! prefix, -r0, +build) of every '=' / '!=' bound (each bound itself, a version strictly between each neighbouring pair, one below, one above); plus vers:<scheme>/*. Expected value from the spec's interval semantics over the scheme's own Compare; pypi pre-/dev-release probes are expected excluded unless a constraint names a pre-release. distinct_nontrivial = evaluations whose expected value is true.",
+		Rule:        "for each of the 11 schemes: every comparator sequence of length 1..n (quick 4, thorough 8) over {< <= > >= = !=} whose bounds alternate as the VERS spec requires, instantiated with increasing versions from 2-3 pools per scheme (plain releases; pre-releases and scheme-specific spellings), evaluated on every pool member up to just above the last bound and on every Compare-equal alternative spelling (.0 suffix, v / 0: / 0! prefix, -r0, +build) of every '=' / '!=' bound (each bound itself, a version strictly between each neighbouring pair, one below, one above); plus vers:<scheme>/*; plus a cross-scheme unit: every two-constraint text over 21 version spellings whose order or validity differs between ecosystems x 6 operator pairs, evaluated under all 11 schemes alternately (forward and backward) in one process. Expected value from the spec's interval semantics over the scheme's own Compare; pypi pre-/dev-release probes are expected excluded unless a constraint names a pre-release. distinct_nontrivial = evaluations whose expected value is true.",
 		Assumptions: []string{"constraint versions are taken from fixed increasing pools (validated against the scheme's Compare on every run), not from all versions", "quick stops at 4 constraints; thorough reaches the 8 the property names (the letter-case pools stop at 6)"},
 	})
 }
